@@ -1047,7 +1047,7 @@ structure FlInv (cfg : Cfg) (st : State) (m : Mon) : Prop where
   gens : ∀ c, st.cache = some c → ∀ h ∈ st.handles, h.side = .rem → h.gen ≤ c.fl.remOuter ∧ h.inner ≤ c.fl.remInner
   nocache : st.cache = none → ∀ h ∈ st.handles, h.side = .dflt
   cur : ∀ c, st.cache = some c →
-    c.fl.remCount = (st.handles.countP (flagOf c) : Int) ∧
+    (c.remote.isSome = true → c.fl.remCount = (st.handles.countP (flagOf c) : Int)) ∧
     ∀ h ∈ st.handles, h.side = .rem → h.gen = c.fl.remOuter → c.remote.isSome = true → h.inner = c.fl.remInner
 
 /-- nothing that `FlInv` talks about changes -/
@@ -1430,27 +1430,25 @@ theorem step_schema {K : Kind} {cfg : Cfg} {st : State} {m : Mon} (hi : Inv K cf
           have hnone : st.cache = none := hcache
           have hst : stopsRemote m (.schema s) = false := by simp [stopsRemote, hsch]
           have hrb : rebuilds m (.schema s) = false := by simp [rebuilds, effective]
+          have hnb : newBucket m (.schema s) = false := by simp [newBucket, hrb]
           refine ⟨hi.fl.cfgv, ?_, ?_, ?_, ?_, hi.fl.nodup, ?_, fun h => (by cases h), ?_⟩
           · intro x r hx hr
             have : x = { loc := { config := s, fc := some (limOf s) }, remote := none } := by simpa using hx.symm
             subst this; cases hr
           · intro w hw; simp [gfcOf] at hw
           · intro hm
-            simp only [Mon.next, hrb, hst] at hm
+            simp only [Mon.next, hrb, hnb, hst] at hm
             obtain ⟨c, g, k1, _⟩ := hi.fl.must (by simpa using hm)
             rw [hnone] at k1; cases k1
-          · simp only [Mon.next, hrb, hst, Bool.or_self, Bool.false_eq_true, if_false]
+          · simp only [Mon.next, hrb, hnb, hst, Bool.or_self, Bool.false_eq_true, if_false]
             rw [hi.fl.held, hnone, heldOf_noremote _ rfl]; rfl
           · intro x hx h hh hside
             have := hi.fl.nocache hnone h hh
             rw [this] at hside; cases hside
-          · intro _ x hx
+          · intro x hx
             have : x = { loc := { config := s, fc := some (limOf s) }, remote := none } := by simpa using hx.symm
             subst this
-            refine ⟨?_, fun h _ _ _ hr => (by cases hr)⟩
-            have : st.handles.countP (flagOf { loc := { config := s, fc := some (limOf s) }, remote := none }) = 0 := by
-              rw [List.countP_eq_zero]; intro h _; simp [flagOf]
-            simp [this]
+            exact ⟨fun h => (by simp at h), fun h _ _ _ hr => (by cases hr)⟩
   | some c =>
     cases hsch : m.schema with
     | none => rw [hcache, hsch] at hc; exact hc.elim
@@ -1492,23 +1490,10 @@ theorem step_schema {K : Kind} {cfg : Cfg} {st : State} {m : Mon} (hi : Inv K cf
             · intro x hx
               have : x = { c with loc := { config := s, fc := some (limOf s) }, remote := none } := by simpa using hx.symm
               subst this; exact hi.fl.gens c hcache
-            · intro ht x hx
+            · intro x hx
               have : x = { c with loc := { config := s, fc := some (limOf s) }, remote := none } := by simpa using hx.symm
               subst this
-              simp only [Mon.next, hst, Bool.or_true, Bool.true_and, Bool.or_eq_false_iff] at ht
-              refine ⟨?_, fun h _ _ _ hr => (by cases hr)⟩
-              have hz : st.handles.countP (flagOf { c with loc := { config := s, fc := some (limOf s) }, remote := none }) = 0 := by
-                rw [List.countP_eq_zero]; intro h _; simp [flagOf]
-              rw [hz]
-              obtain ⟨k1, _⟩ := hi.fl.cur ht.1 c hcache
-              have hany : (heldOf (some c) st.handles).any (·.2) = false := by rw [← hcache, ← hi.fl.held]; exact ht.2
-              have : st.handles.countP (flagOf c) = 0 := by
-                rw [← heldOf_countP, List.countP_eq_zero]
-                intro e he
-                have := List.any_eq_false.1 hany e he
-                simpa using this
-              show c.fl.remCount = _
-              rw [k1, this]
+              exact ⟨fun h => (by simp at h), fun h _ _ _ hr => (by cases hr)⟩
       · -- nothing else changes
         have hstop' : (decide (s ≠ old) && !enableGlobal s) = false := by simpa using hstop
         refine ⟨{ st with cache := some { c with loc := { config := s, fc := some (limOf s) }, remote := c.remote } }, ?_, ?_, rfl⟩
@@ -1521,11 +1506,11 @@ theorem step_schema {K : Kind} {cfg : Cfg} {st : State} {m : Mon} (hi : Inv K cf
             cases hu : (observe cfg st).unavail with
             | true => simp only [if_true]; exact sup_eq_left hi.gsob
             | false => simp only [Bool.false_eq_true, if_false]; exact (hi.obgs hu).symm
-          have hsy : (if s ≠ old ∧ guessType s = guessType old ∧ enableGlobal s = false then false else m.synced) = m.synced := by
+          have hsy : (if s ≠ old ∧ (guessType s ≠ guessType old ∨ enableGlobal s = false) then false else m.synced) = m.synced := by
             simp only [Bool.and_eq_false_iff, decide_eq_false_iff_not, Bool.not_eq_false'] at hstop'
             rcases hstop' with h | h
             · simp [h]
-            · simp [h]
+            · simp [h, VS_guess hs, VS_guess h2]
           refine ⟨?_, hi.meterOK, ?_, ?_, rfl, ?_, ?_, ?_, ?_, ?_, ?_, ?_⟩
           · simp [Mon.next]; exact hi.meter
           · simp [Mon.next]; exact hi.shards
@@ -1548,22 +1533,23 @@ theorem step_schema {K : Kind} {cfg : Cfg} {st : State} {m : Mon} (hi : Inv K cf
               · simp [h]
               · simp [h]
             have hrb : rebuilds m (.schema s) = false := by simp [rebuilds, effective]
+            have hnb : newBucket m (.schema s) = false := by simp [newBucket, hrb]
             refine flInv_cache (c' := { c with loc := { config := s, fc := some (limOf s) }, remote := c.remote })
               (st' := { st with cache := some { c with loc := { config := s, fc := some (limOf s) }, remote := c.remote } })
               hi.fl hcache rfl rfl rfl rfl rfl ?_ ?_ ?_ ?_ ?_
             · intro r hr; simp only [Mon.next, effective, Bool.false_eq_true, if_false]; exact hi.fl.applied c r hcache hr
             · intro w hw
-              simp only [Mon.next, hrb, hst, Bool.or_self, Bool.false_eq_true, if_false]
+              simp only [Mon.next, hrb, hnb, hst, Bool.or_self, Bool.false_eq_true, if_false]
               have := hi.fl.owed w (by rw [← hg]; exact hw)
               split <;> exact this
             · intro hm
-              simp only [Mon.next, hrb, hst] at hm
+              simp only [Mon.next, hrb, hnb, hst] at hm
               obtain ⟨c0, g, k1, k2, k3, k4⟩ := hi.fl.must (by simpa using hm)
               have : c0 = c := by rw [hcache] at k1; exact (Option.some.inj k1).symm
               subst this
               exact ⟨g, by rw [hg]; exact k2, k3, k4⟩
-            · simp [Mon.next, hrb, hst]
-            · simp [Mon.next, hrb, hst]
+            · simp [Mon.next, hrb, hnb, hst]
+            · simp [Mon.next, hrb, hnb, hst]
 
 /-- an effective sync of the remote limiter (reconcile of a global-count schema, or an answer of the schema's type) -/
 theorem inv_of_sync {K : Kind} {cfg : Cfg} {st : State} {m : Mon} {c : Cache} {s : Schema} (hi : Inv K cfg st m)
@@ -1643,6 +1629,7 @@ theorem step_noop {K : Kind} {cfg : Cfg} {st : State} {m : Mon} (hi : Inv K cfg 
     (hq : quietOp op = true := by rfl)
     (hsl : ∀ r, op = .setLimit r → (observe cfg st).wkind = 0 := by intro r h; cases h) : StepOK K cfg st m op := by
   have hrb : rebuilds m op = false := by simp [rebuilds, heff]
+  have hnb : newBucket m op = false := by simp [newBucket, hrb]
   have hst : stopsRemote m op = false := by
     cases op with
     | schema s0 =>
@@ -1675,41 +1662,41 @@ theorem step_noop {K : Kind} {cfg : Cfg} {st : State} {m : Mon} (hi : Inv K cfg 
       | event => simp [quietOp] at hq
       | setLimit r =>
         have := hsl r rfl
-        simp [Mon.next, hrb, hst, hi.prev, this]
-      | schema _ => simp [Mon.next, hrb, hst]
-      | hb _ _ _ => simp [Mon.next, hrb, hst]
-      | sync _ _ _ _ => simp [Mon.next, hrb, hst]
-      | shards _ => simp [Mon.next, hrb, hst]
-      | reconcileCount => simp [Mon.next, hrb, hst]
-      | answer _ _ => simp [Mon.next, hrb, hst]
-      | meter _ => simp [Mon.next, hrb, hst]
+        simp [Mon.next, hrb, hnb, hst, hi.prev, this]
+      | schema _ => simp [Mon.next, hrb, hnb, hst]
+      | hb _ _ _ => simp [Mon.next, hrb, hnb, hst]
+      | sync _ _ _ _ => simp [Mon.next, hrb, hnb, hst]
+      | shards _ => simp [Mon.next, hrb, hnb, hst]
+      | reconcileCount => simp [Mon.next, hrb, hnb, hst]
+      | answer _ _ => simp [Mon.next, hrb, hnb, hst]
+      | meter _ => simp [Mon.next, hrb, hnb, hst]
     · cases op with
       | tick _ _ => simp [quietOp] at hq
       | event => simp [quietOp] at hq
       | acquire _ => simp [quietOp] at hq
       | release _ => simp [quietOp] at hq
-      | setLimit _ => simp [Mon.next, hrb, hst]
-      | schema _ => simp [Mon.next, hrb, hst]
-      | hb _ _ _ => simp [Mon.next, hrb, hst]
-      | sync _ _ _ _ => simp [Mon.next, hrb, hst]
-      | shards _ => simp [Mon.next, hrb, hst]
-      | reconcileCount => simp [Mon.next, hrb, hst]
-      | answer _ _ => simp [Mon.next, hrb, hst]
-      | meter _ => simp [Mon.next, hrb, hst]
+      | setLimit _ => simp [Mon.next, hrb, hnb, hst]
+      | schema _ => simp [Mon.next, hrb, hnb, hst]
+      | hb _ _ _ => simp [Mon.next, hrb, hnb, hst]
+      | sync _ _ _ _ => simp [Mon.next, hrb, hnb, hst]
+      | shards _ => simp [Mon.next, hrb, hnb, hst]
+      | reconcileCount => simp [Mon.next, hrb, hnb, hst]
+      | answer _ _ => simp [Mon.next, hrb, hnb, hst]
+      | meter _ => simp [Mon.next, hrb, hnb, hst]
     · cases op with
       | acquire _ => simp [quietOp] at hq
       | release _ => simp [quietOp] at hq
-      | tick _ _ => simp [Mon.next, hrb, hst]
-      | event => simp [Mon.next, hrb, hst]
-      | setLimit _ => simp [Mon.next, hrb, hst]
-      | schema _ => simp [Mon.next, hrb, hst]
-      | hb _ _ _ => simp [Mon.next, hrb, hst]
-      | sync _ _ _ _ => simp [Mon.next, hrb, hst]
-      | shards _ => simp [Mon.next, hrb, hst]
-      | reconcileCount => simp [Mon.next, hrb, hst]
-      | answer _ _ => simp [Mon.next, hrb, hst]
-      | meter _ => simp [Mon.next, hrb, hst]
-    · simp [Mon.next, hrb, hst]
+      | tick _ _ => simp [Mon.next, hrb, hnb, hst]
+      | event => simp [Mon.next, hrb, hnb, hst]
+      | setLimit _ => simp [Mon.next, hrb, hnb, hst]
+      | schema _ => simp [Mon.next, hrb, hnb, hst]
+      | hb _ _ _ => simp [Mon.next, hrb, hnb, hst]
+      | sync _ _ _ _ => simp [Mon.next, hrb, hnb, hst]
+      | shards _ => simp [Mon.next, hrb, hnb, hst]
+      | reconcileCount => simp [Mon.next, hrb, hnb, hst]
+      | answer _ _ => simp [Mon.next, hrb, hnb, hst]
+      | meter _ => simp [Mon.next, hrb, hnb, hst]
+    · simp [Mon.next, hrb, hnb, hst]
   have hcnt : CntInv st (m.next op (observe cfg st)) := by
     apply cntInv_frame hi.cnt rfl
     · cases op with
@@ -1865,14 +1852,14 @@ theorem flInv_sync {K : Kind} {cfg : Cfg} {st : State} {m : Mon} {c : Cache} {s 
   have mapp : (m.next op o).applied = some (boundByGlobalLimit s i) := by
     rcases hop with rfl | ⟨item, rfl⟩ <;> simp [Mon.next, heff, hitem, hsch]
   have mowed : (m.next op o).owed = if remoteRecreates (c.remote.getD {}) s i then 0 else m.owed := by
-    rcases hop with rfl | ⟨item, rfl⟩ <;> simp [Mon.next, hrb, hst] <;> (intro _; split <;> rfl)
+    rcases hop with rfl | ⟨item, rfl⟩ <;> simp [Mon.next, hrb, hnb, hst] <;> (intro _; split <;> rfl)
   have mmust : (m.next op o).mustEvent = (m.mustEvent && !remoteRecreates (c.remote.getD {}) s i) := by
-    rcases hop with rfl | ⟨item, rfl⟩ <;> simp [Mon.next, hrb, hst]
+    rcases hop with rfl | ⟨item, rfl⟩ <;> simp [Mon.next, hrb, hnb, hst]
   have mheld : (m.next op o).held = if remoteRecreates (c.remote.getD {}) s i then m.held.map (fun h => (h.1, false))
       else m.held := by
-    rcases hop with rfl | ⟨item, rfl⟩ <;> simp [Mon.next, hrb, hst]
+    rcases hop with rfl | ⟨item, rfl⟩ <;> simp [Mon.next, hrb, hnb, hst]
   have mtaint : (m.next op o).tainted = (m.tainted || (remoteRecreates (c.remote.getD {}) s i && m.held.any (·.2))) := by
-    rcases hop with rfl | ⟨item, rfl⟩ <;> simp [Mon.next, hrb, hst]
+    rcases hop with rfl | ⟨item, rfl⟩ <;> simp [Mon.next, hrb, hnb, hst]
   cases hrc : remoteRecreates (c.remote.getD {}) s i with
   | false =>
     -- resized in place (or nothing at all): the remote wrapper existed, nothing moves
@@ -2159,8 +2146,9 @@ theorem inv_of_setLimit {K : Kind} {cfg : Cfg} {st : State} {m : Mon} {c : Cache
       (m.next (.setLimit r)
         (observe cfg { st with cache := some { c with remote := some { rm with fc := some g' } }, lastRet := b })) := by
     have hrb : rebuilds m (.setLimit r) = false := by simp [rebuilds, effective]
+    have hnb : newBucket m (.setLimit r) = false := by simp [newBucket, hrb]
     refine flInv_cache (c' := { c with remote := some { rm with fc := some g' } }) hi.fl hcache rfl rfl rfl rfl
-      (by simp [hrm]) ?_ ?_ ?_ (by simp [Mon.next, hrb, stopsRemote]) (by simp [Mon.next, hrb, stopsRemote])
+      (by simp [hrm]) ?_ ?_ ?_ (by simp [Mon.next, hrb, hnb, stopsRemote]) (by simp [Mon.next, hrb, hnb, stopsRemote])
     · intro r0 hr0
       have : r0 = { rm with fc := some g' } := by simpa using hr0.symm
       subst this
@@ -2172,11 +2160,11 @@ theorem inv_of_setLimit {K : Kind} {cfg : Cfg} {st : State} {m : Mon} {c : Cache
       obtain ⟨w, hw, htk⟩ := htok w' hg'
       subst hw
       have ho := hi.fl.owed w hgf0
-      simp only [Mon.next, hrb, stopsRemote, Bool.or_self, Bool.false_eq_true, if_false, hpw, GFC.wkind, if_true]
+      simp only [Mon.next, hrb, hnb, stopsRemote, Bool.or_self, Bool.false_eq_true, if_false, hpw, GFC.wkind, if_true]
       rw [htk, TBW.noteRequest]
       split <;> simp [ho]
     · intro hm
-      simp only [Mon.next, hrb, stopsRemote] at hm
+      simp only [Mon.next, hrb, hnb, stopsRemote] at hm
       obtain ⟨c0, g0, k1, k2, k3, k4⟩ := hi.fl.must (by simpa using hm)
       have : c0 = c := by rw [hcache] at k1; exact (Option.some.inj k1).symm
       subst this
@@ -2398,6 +2386,7 @@ theorem inv_of_cnt {K : Kind} {cfg : Cfg} {st st' : State} {m m' : Mon} {c : Cac
 theorem step_event {K : Kind} {cfg : Cfg} {st : State} {m : Mon} (hi : Inv K cfg st m) : StepOK K cfg st m .event := by
   -- either nothing changes, or the counter's event flag is raised
   have hrb : rebuilds m .event = false := by simp [rebuilds, effective]
+  have hnb : newBucket m .event = false := by simp [newBucket, hrb]
   have quiet : step st .event = .ok st → ((observe cfg st).wkind ≠ 2 ∧ (observe cfg st).wkind ≠ 3) →
       StepOK K cfg st m .event := by
     intro hs hw
@@ -2427,10 +2416,10 @@ theorem step_event {K : Kind} {cfg : Cfg} {st : State} {m : Mon} (hi : Inv K cfg
       · intro c hc _; simp [Mon.next]
     · apply flInv_frame hi.fl rfl rfl rfl
       · simp [Mon.next, effective]
-      · simp [Mon.next, hrb, stopsRemote]
+      · simp [Mon.next, hrb, hnb, stopsRemote]
       · simp [Mon.next, hi.prev, hw.1, hw.2, hmf]
-      · simp [Mon.next, hrb, stopsRemote]
-      · simp [Mon.next, hrb, stopsRemote]
+      · simp [Mon.next, hrb, hnb, stopsRemote]
+      · simp [Mon.next, hrb, hnb, stopsRemote]
   have raised : ∀ c, st.cache = some c →
       step st .event = .ok { st with cache := some { c with cnt := { c.cnt with event := true } } } →
       StepOK K cfg st m .event := by
@@ -2454,11 +2443,11 @@ theorem step_event {K : Kind} {cfg : Cfg} {st : State} {m : Mon} (hi : Inv K cfg
         simp [Mon.next, effective]; exact hi.cnt.contact c hcache
       · intro x hx _; simp [Mon.next]
     · refine flInv_cache (c' := { c with cnt := { c.cnt with event := true } }) hi.fl hcache rfl rfl rfl rfl rfl ?_ ?_ ?_
-        (by simp [Mon.next, hrb, stopsRemote]) (by simp [Mon.next, hrb, stopsRemote])
+        (by simp [Mon.next, hrb, hnb, stopsRemote]) (by simp [Mon.next, hrb, hnb, stopsRemote])
       · intro r hr; simp only [Mon.next, effective, Bool.false_eq_true, if_false]; exact hi.fl.applied c r hcache hr
       · intro w hw
         have hw' : gfcOf st = some (.tbw w) := by simpa [gfcOf, hcache] using hw
-        simp only [Mon.next, hrb, stopsRemote, Bool.or_self, Bool.false_eq_true, if_false]
+        simp only [Mon.next, hrb, hnb, stopsRemote, Bool.or_self, Bool.false_eq_true, if_false]
         have := hi.fl.owed w hw'
         split <;> exact this
       · intro hm
@@ -2595,6 +2584,7 @@ theorem step_tick {K : Kind} {cfg : Cfg} {st : State} {m : Mon} (hi : Inv K cfg 
     (ans : Option TickAnswer) : StepOK K cfg st m (.tick now ans) := by
   have hprev := hi.prev
   have hrb : rebuilds m (.tick now ans) = false := by simp [rebuilds, effective]
+  have hnb : newBucket m (.tick now ans) = false := by simp [newBucket, hrb]
   cases hcache : st.cache with
   | none =>
     have hg0 : gfcOf st = none := by simp [gfcOf, hcache]
@@ -2622,10 +2612,10 @@ theorem step_tick {K : Kind} {cfg : Cfg} {st : State} {m : Mon} (hi : Inv K cfg 
         · rfl
         · rfl
         · simp [Mon.next, effective]
-        · simp [Mon.next, hrb, stopsRemote, hprev, observe_wkind0 hg0]
+        · simp [Mon.next, hrb, hnb, stopsRemote, hprev, observe_wkind0 hg0]
         · simp [Mon.next, hmf]
-        · simp [Mon.next, hrb, stopsRemote]
-        · simp [Mon.next, hrb, stopsRemote]
+        · simp [Mon.next, hrb, hnb, stopsRemote]
+        · simp [Mon.next, hrb, hnb, stopsRemote]
     · simp [judgeTrans, judgeTick, judgeDemand, hprev, observe_wkind0 hg0, observe_req]
   | some c =>
     have hc := hi.cache
@@ -2696,12 +2686,12 @@ theorem step_tick {K : Kind} {cfg : Cfg} {st : State} {m : Mon} (hi : Inv K cfg 
             subst this
             simp at he
         · refine flInv_cache (c' := { c with cnt := { c.cnt with event := false } }) hi.fl hcache rfl rfl rfl rfl rfl
-            ?_ ?_ ?_ (by simp [Mon.next, hrb, stopsRemote]) (by simp [Mon.next, hrb, stopsRemote])
+            ?_ ?_ ?_ (by simp [Mon.next, hrb, hnb, stopsRemote]) (by simp [Mon.next, hrb, hnb, stopsRemote])
           · intro r hr; simp only [Mon.next, effective, Bool.false_eq_true, if_false]; exact hi.fl.applied c r hcache hr
           · intro w hw
             have hw' : gfcOf st = some (.tbw w) := by simpa [gfcOf, hcache, tickQuiet] using hw
             have := hi.fl.owed w hw'
-            simp only [Mon.next, hrb, stopsRemote, Bool.or_self, Bool.false_eq_true, if_false, observe_req,
+            simp only [Mon.next, hrb, hnb, stopsRemote, Bool.or_self, Bool.false_eq_true, if_false, observe_req,
               tickQuiet_lastReq]
             split <;> exact this
           · intro hm; simp [Mon.next] at hm
@@ -2783,8 +2773,8 @@ theorem step_tick {K : Kind} {cfg : Cfg} {st : State} {m : Mon} (hi : Inv K cfg 
                 subst this
                 simp at he
             · refine flInv_cache (c' := { c with remote := some { rm with fc := some (g.addAcquiring hits) }, cnt := { c.cnt with event := false } })
-                hi.fl hcache rfl rfl rfl rfl (by simp [hrm]) ?_ ?_ ?_ (by simp [Mon.next, hrb, stopsRemote])
-                (by simp [Mon.next, hrb, stopsRemote])
+                hi.fl hcache rfl rfl rfl rfl (by simp [hrm]) ?_ ?_ ?_ (by simp [Mon.next, hrb, hnb, stopsRemote])
+                (by simp [Mon.next, hrb, hnb, stopsRemote])
               · intro r0 hr0
                 have : r0 = { rm with fc := some (g.addAcquiring hits) } := by simpa using hr0.symm
                 subst this
@@ -2798,7 +2788,7 @@ theorem step_tick {K : Kind} {cfg : Cfg} {st : State} {m : Mon} (hi : Inv K cfg 
                 | tbw w =>
                   have ho := hi.fl.owed w hgf
                   simp only [GFC.addAcquiring, GFC.tbw.injEq] at hg'
-                  simp only [Mon.next, hrb, stopsRemote, Bool.or_self, Bool.false_eq_true, if_false, hpw, GFC.wkind,
+                  simp only [Mon.next, hrb, hnb, stopsRemote, Bool.or_self, Bool.false_eq_true, if_false, hpw, GFC.wkind,
                     if_true, observe_req, tickSent_lastReq, Option.isSome_none]
                   rw [← hg', ← ho]
               · intro hm; simp [Mon.next] at hm
@@ -2850,8 +2840,8 @@ theorem step_tick {K : Kind} {cfg : Cfg} {st : State} {m : Mon} (hi : Inv K cfg 
                   subst this
                   simp at he
               · refine flInv_cache (c' := { c with remote := some { rm with fc := some g' }, cnt := { event := false, lastSync := unixS now } })
-                  hi.fl hcache rfl rfl rfl rfl (by simp [hrm]) ?_ ?_ ?_ (by simp [Mon.next, hrb, stopsRemote])
-                  (by simp [Mon.next, hrb, stopsRemote])
+                  hi.fl hcache rfl rfl rfl rfl (by simp [hrm]) ?_ ?_ ?_ (by simp [Mon.next, hrb, hnb, stopsRemote])
+                  (by simp [Mon.next, hrb, hnb, stopsRemote])
                 · intro r0 hr0
                   have : r0 = { rm with fc := some g' } := by simpa using hr0.symm
                   subst this
@@ -2862,7 +2852,7 @@ theorem step_tick {K : Kind} {cfg : Cfg} {st : State} {m : Mon} (hi : Inv K cfg 
                   obtain ⟨w, hw, htk'⟩ := htk w' (Option.some.inj hw')
                   subst hw
                   have ho := hi.fl.owed w hgf
-                  simp only [Mon.next, hrb, stopsRemote, Bool.or_self, Bool.false_eq_true, if_false, hpw, GFC.wkind,
+                  simp only [Mon.next, hrb, hnb, stopsRemote, Bool.or_self, Bool.false_eq_true, if_false, hpw, GFC.wkind,
                     if_true, observe_req, tickSent_lastReq, Option.isSome_some]
                   rw [htk', ho]
                 · intro hm; simp [Mon.next] at hm
@@ -3110,7 +3100,8 @@ theorem flInv_push {cfg : Cfg} {st st' : State} {m m' : Mon} {c c' : Cache} {h :
     subst this
     obtain ⟨k1, k2⟩ := hf.cur c hc
     refine ⟨?_, ?_⟩
-    · rw [hh, List.countP_cons, countP_flagOf_congr' _ ho hn hrs, flagOf_congr' h ho hn hrs, hcount, k1]
+    · intro hsome
+      rw [hh, List.countP_cons, countP_flagOf_congr' _ ho hn hrs, flagOf_congr' h ho hn hrs, hcount, k1 (by rw [← hrs]; exact hsome)]
       cases flagOf c h <;> simp
     · rw [hh, ho, hn, hrs]
       intro h0 hm hs hgn hsm
@@ -3165,6 +3156,7 @@ theorem step_acquire {K : Kind} {cfg : Cfg} {st : State} {m : Mon} (hi : Inv K c
     StepOK K cfg st m (.acquire id) := by
   have hprev := hi.prev
   have hrb : rebuilds m (.acquire id) = false := by simp [rebuilds, effective]
+  have hnb : newBucket m (.acquire id) = false := by simp [newBucket, hrb]
   have hsr : stopsRemote m (.acquire id) = false := rfl
   have hany : m.held.any (·.1 == id) = st.handles.any (·.id == id) := by rw [hi.fl.held, heldOf_any]
   have hch : m.prev.choice = load cfg st := by rw [hprev, observe_choice]
@@ -3182,11 +3174,11 @@ theorem step_acquire {K : Kind} {cfg : Cfg} {st : State} {m : Mon} (hi : Inv K c
       · rfl
       · rfl
       · simp [Mon.next, effective]
-      · simp [Mon.next, hrb, hsr]
-      · simp [Mon.next, hrb, hsr]
-      · simp only [Mon.next, hrb, hsr, Bool.or_self, Bool.false_eq_true, if_false, observe_admitted]
+      · simp [Mon.next, hrb, hnb, hsr]
+      · simp [Mon.next, hrb, hnb, hsr]
+      · simp only [Mon.next, hrb, hnb, hsr, Bool.or_self, Bool.false_eq_true, if_false, observe_admitted]
         rw [if_neg hnot]
-      · simp [Mon.next, hrb, hsr]
+      · simp [Mon.next, hrb, hnb, hsr]
     · simp only [judgeTrans, judgeAcquire, observe_admitted]
       rw [if_neg]
       intro h; exact hnot ⟨h.1, h.2.1⟩
@@ -3206,8 +3198,8 @@ theorem step_acquire {K : Kind} {cfg : Cfg} {st : State} {m : Mon} (hi : Inv K c
       · exact hheld
       · rfl
       · rfl
-      · simp [Mon.next, hrb, hsr]
-      · simp only [Mon.next, hrb, hsr, Bool.or_self, Bool.false_eq_true, if_false, observe_admitted, hnh, and_self,
+      · simp [Mon.next, hrb, hnb, hsr]
+      · simp only [Mon.next, hrb, hnb, hsr, Bool.or_self, Bool.false_eq_true, if_false, observe_admitted, hnh, and_self,
           if_true, hch, hld]
         rfl
     · simp only [judgeTrans, judgeAcquire, hch, hld]
@@ -3248,12 +3240,12 @@ theorem step_acquire {K : Kind} {cfg : Cfg} {st : State} {m : Mon} (hi : Inv K c
         · intro h; cases h
         · exact fun h => h
         · simp [Mon.next, effective]
-        · simp [Mon.next, hrb, hsr]
-        · simp [Mon.next, hrb, hsr]
-        · simp only [Mon.next, hrb, hsr, Bool.or_self, Bool.false_eq_true, if_false, observe_admitted, hnh, and_self,
+        · simp [Mon.next, hrb, hnb, hsr]
+        · simp [Mon.next, hrb, hnb, hsr]
+        · simp only [Mon.next, hrb, hnb, hsr, Bool.or_self, Bool.false_eq_true, if_false, observe_admitted, hnh, and_self,
             if_true, hch, hld, hflag]
           rfl
-        · simp [Mon.next, hrb, hsr]
+        · simp [Mon.next, hrb, hnb, hsr]
       · simp only [judgeTrans, judgeAcquire, hch, hld]
         rw [if_neg]
         intro h; exact absurd h.2.2.1 (by decide)
@@ -3281,17 +3273,17 @@ theorem step_acquire {K : Kind} {cfg : Cfg} {st : State} {m : Mon} (hi : Inv K c
         · intro w hw
           have hw' : gfcOf st = some (.tbw w) := by simpa [gfcOf, hcache] using hw
           have := hi.fl.owed w hw'
-          simp only [Mon.next, hrb, hsr, Bool.or_self, Bool.false_eq_true, if_false]
+          simp only [Mon.next, hrb, hnb, hsr, Bool.or_self, Bool.false_eq_true, if_false]
           split <;> exact this
         · intro hm
-          have hm' : m.mustEvent = true := by simpa [Mon.next, hrb, hsr] using hm
+          have hm' : m.mustEvent = true := by simpa [Mon.next, hrb, hnb, hsr] using hm
           obtain ⟨c0, g0, k1, k2, k3, k4⟩ := hi.fl.must hm'
           have : c0 = c := by rw [hcache] at k1; exact (Option.some.inj k1).symm
           subst this
           exact ⟨g0, by simpa [gfcOf, hcache] using k2, k3, hce k4⟩
-        · simp only [Mon.next, hrb, hsr, Bool.or_self, Bool.false_eq_true, if_false, observe_admitted]
+        · simp only [Mon.next, hrb, hnb, hsr, Bool.or_self, Bool.false_eq_true, if_false, observe_admitted]
           rw [if_neg]; intro h; cases h.1
-        · simp [Mon.next, hrb, hsr]
+        · simp [Mon.next, hrb, hnb, hsr]
       · simp only [judgeTrans, judgeAcquire, observe_admitted]
         rw [if_neg]; intro h; cases h.1
     | true =>
@@ -3317,12 +3309,12 @@ theorem step_acquire {K : Kind} {cfg : Cfg} {st : State} {m : Mon} (hi : Inv K c
         · intro _; exact ⟨rfl, rfl⟩
         · exact hce
         · simp [Mon.next, effective]
-        · simp [Mon.next, hrb, hsr]
-        · simp [Mon.next, hrb, hsr]
-        · simp only [Mon.next, hrb, hsr, Bool.or_self, Bool.false_eq_true, if_false, observe_admitted, hnh, and_self,
+        · simp [Mon.next, hrb, hnb, hsr]
+        · simp [Mon.next, hrb, hnb, hsr]
+        · simp only [Mon.next, hrb, hnb, hsr, Bool.or_self, Bool.false_eq_true, if_false, observe_admitted, hnh, and_self,
             if_true, hch, hld, hflag]
           rfl
-        · simp [Mon.next, hrb, hsr]
+        · simp [Mon.next, hrb, hnb, hsr]
       · -- the in-flight clause: the bucket's count is the number of flagged handles, its size within the bound
         simp only [judgeTrans, judgeAcquire]
         rw [if_neg]
@@ -3387,7 +3379,8 @@ theorem flInv_pop {cfg : Cfg} {st st' : State} {m m' : Mon} {c c' : Cache} {h : 
     subst this
     obtain ⟨k1, k2⟩ := hf.cur c hc
     refine ⟨?_, ?_⟩
-    · rw [hh, countP_flagOf_congr' _ ho hn hrs, countP_filter_id hf.nodup hfind, hcount, k1]
+    · intro hsome
+      rw [hh, countP_flagOf_congr' _ ho hn hrs, countP_filter_id hf.nodup hfind, hcount, k1 (by rw [← hrs]; exact hsome)]
     · rw [ho, hn, hrs]
       intro h0 hm hs hgn hsm
       exact k2 h0 (hsub h0 hm) hs hgn hsm
@@ -3418,6 +3411,7 @@ theorem flInv_pop_none {cfg : Cfg} {st st' : State} {m m' : Mon} {id : Nat}
 theorem step_release {K : Kind} {cfg : Cfg} {st : State} {m : Mon} (hi : Inv K cfg st m) (id : Nat) :
     StepOK K cfg st m (.release id) := by
   have hrb : rebuilds m (.release id) = false := by simp [rebuilds, effective]
+  have hnb : newBucket m (.release id) = false := by simp [newBucket, hrb]
   have hsr : stopsRemote m (.release id) = false := rfl
   have hop : (∃ i, Op.release id = .acquire i) ∨ (∃ i, Op.release id = .release i) := Or.inr ⟨id, rfl⟩
   cases hfind : st.handles.find? (·.id == id) with
@@ -3429,11 +3423,11 @@ theorem step_release {K : Kind} {cfg : Cfg} {st : State} {m : Mon} (hi : Inv K c
       · rfl
       · rfl
       · simp [Mon.next, effective]
-      · simp [Mon.next, hrb, hsr]
-      · simp [Mon.next, hrb, hsr]
-      · simp only [Mon.next, hrb, hsr, Bool.or_self, Bool.false_eq_true, if_false]
+      · simp [Mon.next, hrb, hnb, hsr]
+      · simp [Mon.next, hrb, hnb, hsr]
+      · simp only [Mon.next, hrb, hnb, hsr, Bool.or_self, Bool.false_eq_true, if_false]
         rw [hi.fl.held, heldOf_filter, filter_id_self (find_none_notin hfind)]
-      · simp [Mon.next, hrb, hsr]
+      · simp [Mon.next, hrb, hnb, hsr]
     · rfl
   | some h =>
   obtain ⟨hmem, _⟩ := find_mem hfind
@@ -3449,8 +3443,8 @@ theorem step_release {K : Kind} {cfg : Cfg} {st : State} {m : Mon} (hi : Inv K c
         · exact hcache
         · rfl
         · rfl
-        · simp [Mon.next, hrb, hsr]
-        · simp only [Mon.next, hrb, hsr, Bool.or_self, Bool.false_eq_true, if_false]
+        · simp [Mon.next, hrb, hnb, hsr]
+        · simp only [Mon.next, hrb, hnb, hsr, Bool.or_self, Bool.false_eq_true, if_false]
       · rfl
     cases hside : h.side with
     | dflt => exact fin0 st.inflight (by simp [releaseStep, hfind, hside])
@@ -3480,10 +3474,10 @@ theorem step_release {K : Kind} {cfg : Cfg} {st : State} {m : Mon} (hi : Inv K c
         · exact hcount
         · exact hev
         · simp [Mon.next, effective]
-        · simp [Mon.next, hrb, hsr]
-        · simp [Mon.next, hrb, hsr]
-        · simp only [Mon.next, hrb, hsr, Bool.or_self, Bool.false_eq_true, if_false]
-        · simp [Mon.next, hrb, hsr]
+        · simp [Mon.next, hrb, hnb, hsr]
+        · simp [Mon.next, hrb, hnb, hsr]
+        · simp only [Mon.next, hrb, hnb, hsr, Bool.or_self, Bool.false_eq_true, if_false]
+        · simp [Mon.next, hrb, hnb, hsr]
       · rfl
     cases hside : h.side with
     | dflt =>
